@@ -422,6 +422,11 @@ def runTargets (E : Engine) (d : Defects) (cx : Ctx) (fuel : Nat) :
 
 /-- `redo-ifchange targets…` as run by a script (or at top level when `cx.parent = none`). -/
 def ifchangeWith (E : Engine) (d : Defects) (fuel : Nat) (cx : Ctx) (ts : List Nat) (w : World) : Status × World :=
+  -- a target that names itself is the shortest cycle: `add_dep` refuses it, the transaction that
+  -- was recording the declarations is rolled back, and the command fails with the cyclic status
+  if (match cx.parent with
+      | some p => !cx.unlocked && ts.contains p
+      | none => false) then (EXIT_CYCLIC_DEPENDENCY, w) else
   let w := match cx.parent with
     | some p => if cx.unlocked then w else
         let w := addKnown w p
